@@ -136,3 +136,15 @@ Qed.
 Theorem gen_smc_u_is_the_data_bound v ua :
   ~ ua == 0 -> ~ 2 * ua - v == 0 -> gen_smc_u_comparison v ua == gen_make_overstatement (- ua) ua v.
 Proof. intros H1 H2. unfold gen_smc_u_comparison, gen_make_overstatement, mkq. field. split; assumption. Qed.
+
+(* ---- Assertion.set_all_margins_from_cvrs: every assertion's margin is recomputed from the list given, whatever it
+        held before; the u installed is the same function as in set_margin_from_cvrs ---- *)
+Theorem gen_sam_is_model asns cvrs style : set_all_margins_from_cvrs asns cvrs style = gen_sam_tail asns cvrs style.
+Proof. reflexivity. Qed.
+Theorem gen_sam_u_sites_agree margin ua :
+  gen_sam_u_comparison margin ua == gen_smc_u_comparison margin ua /\ gen_sam_u_polling ua == gen_smc_u_polling ua.
+Proof. unfold gen_sam_u_comparison, gen_smc_u_comparison, gen_sam_u_polling, gen_smc_u_polling. split; reflexivity. Qed.
+Theorem gen_sam_overwrites_old_margins asns cvrs style m0 u0 :
+  fst (gen_sam_tail (map (fun a => mkasn (a_A a) (a_cid a) (a_style a) (a_type a) (a_thr a) m0 (a_ua a) (a_means a) u0) asns) cvrs style)
+  = fst (gen_sam_tail asns cvrs style).
+Proof. unfold gen_sam_tail. cbn [fst]. rewrite map_map. reflexivity. Qed.
